@@ -1298,6 +1298,24 @@ class Message(ABC):
 
         return value
 
+    def _wire_type_fits(
+        self, field_name: str, meta: FieldMetadata, wire_type: int
+    ) -> bool:
+        """Whether a field of this declared type can arrive with this wire type."""
+        if wire_type == WIRE_VARINT:
+            return meta.proto_type in WIRE_VARINT_TYPES
+        if wire_type == WIRE_FIXED_32:
+            return meta.proto_type in WIRE_FIXED_32_TYPES
+        if wire_type == WIRE_FIXED_64:
+            return meta.proto_type in WIRE_FIXED_64_TYPES
+        if wire_type == WIRE_LEN_DELIM:
+            return meta.proto_type in WIRE_LEN_DELIM_TYPES or (
+                # packed encoding, for repeated fields only
+                meta.proto_type in PACKED_TYPES
+                and self._betterproto.default_gen[field_name] is list
+            )
+        return False
+
     def _include_default_value_for_oneof(
         self, field_name: str, meta: FieldMetadata
     ) -> bool:
@@ -1350,13 +1368,16 @@ class Message(ABC):
                     )
 
             field_name = proto_meta.field_name_by_number.get(parsed.number)
-            if not field_name:
+            meta = proto_meta.meta_by_field_name[field_name] if field_name else None
+            if meta is None or not self._wire_type_fits(
+                field_name, meta, parsed.wire_type
+            ):
+                # Unknown field numbers, and known ones that come with a wire
+                # type their declared type cannot have, are kept as they are.
                 self._unknown_fields += parsed.raw
                 if read == size:
                     break
                 continue
-
-            meta = proto_meta.meta_by_field_name[field_name]
 
             value: Any
             if parsed.wire_type == WIRE_LEN_DELIM and meta.proto_type in PACKED_TYPES:
